@@ -1097,6 +1097,54 @@ def gen_one_bin_pileup(src, with_annotation=True, chrom="chr1"):
             "hidden_genes": [] if with_annotation else genes}
 
 
+def gen_balanced_novel_locus(src, with_annotation=True, chrom="chr1"):
+    """A deep pile-up on a short gene and a few reads of an unannotated 3-exon isoform whose long introns reach over
+    the split point; the reads overlap the two sub-regions about equally, and half of them start a little later, so
+    that the copies of different reads are kept in different sub-regions."""
+    start_bin = src.int(3, 8)
+    g0 = start_bin * BIN + src.int(20, 200)
+    short = [[g0 + 1, g0 + 600], [g0 + 1001, g0 + 2400]]
+    strand = "+"
+    genes = [{"id": "H0", "chr": chrom, "strand": strand, "canon": "canon",
+              "transcripts": [{"id": "HT0", "exons": short}]}]
+    overrides = build.splice_overrides(chrom, short, strand)
+    reads = []
+    k = 0
+    for _ in range(src.int(650, 750)):
+        k += 1
+        blocks = [list(b) for b in short]
+        blocks[0][0] += src.int(0, 30)
+        blocks[-1][1] -= src.int(0, 30)
+        reads.append(R.make_read("d%d" % k, chrom, blocks, mapq=60))
+    cut = (g0 // BIN + 128) * BIN          # first split point (0-based start of the second sub-region)
+    s_r = short[1][0] + src.int(600, 800)
+    e_r = 2 * cut - s_r + src.int(-120, 120)
+    x1 = [s_r, short[1][1] + src.int(300, 500)]
+    mid0 = x1[1] + src.int(14000, 18000)
+    x2 = [mid0, mid0 + 200]
+    x3 = [e_r - src.int(250, 400), e_r]
+    if not (x2[1] + 2000 < cut < x3[0] - 2000):
+        x2 = [cut - 9000, cut - 8800]
+    chainx = [x1, x2, x3]
+    overrides += build.splice_overrides(chrom, chainx, strand)
+    hidden = [{"id": "N0", "chr": chrom, "strand": strand, "canon": "canon",
+               "transcripts": [{"id": "NT0", "exons": chainx}]}]
+    special = []
+    n = src.int(3, 4)
+    for i in range(2 * n):
+        k += 1
+        blocks = [list(b) for b in chainx]
+        if i >= n:
+            blocks[0][0] += src.int(220, 300)          # 5'-truncated copies
+        special.append("n%d" % k)
+        reads.append(R.make_read("n%d" % k, chrom, blocks, mapq=60, polya=src.int(22, 30)))
+    length = e_r + src.int(1500, 4000)
+    return {"chroms": [[chrom, length, src.int(1, 10 ** 6)]], "genes": genes if with_annotation else [],
+            "overrides": overrides, "reads": reads, "nfiles": 1,
+            "gtf": {"gene_records": True, "transcript_records": True}, "special": special,
+            "hidden_genes": hidden if with_annotation else genes + hidden}
+
+
 def add_mirror_strand_clone(src, sc, g, reads_per_chain=(3, 5), name_prefix="m"):
     """Clone gene g (and the unannotated chains derived from it) onto a new chromosome at the SAME coordinates but on
     the opposite strand, with splice sites canonical for that strand, and add exact reads of every chain.  Two
